@@ -4,6 +4,7 @@ use super::*;
 use crate::engine::{run_generated, Stats};
 use crate::fail;
 use crate::gen::sigs::{self, SigMut};
+use crate::gen::twins::{self, Twin};
 use crate::gen::{self, BytesSpec, PkSpec, Seed32, SkSpec};
 use crate::libapi::libs;
 use crate::refmodel::{self as rf, MODES};
@@ -102,6 +103,9 @@ pub struct BehaviourCase {
     pub ctx: BytesSpec,
     pub rnd: Seed32,
     pub muts: Vec<SigMut>,
+    /// history: near-twins of the serialised keys are deserialised immediately before (and after) the keys themselves
+    #[serde(default)]
+    pub twin: Option<Twin>,
 }
 
 pub fn check_behaviour(c: &BehaviourCase, st: &mut Stats) -> CheckResult {
@@ -109,11 +113,36 @@ pub fn check_behaviour(c: &BehaviourCase, st: &mut Stats) -> CheckResult {
     let p = libr.p();
     let (m, ctx, rnd) = (c.msg.bytes(), c.ctx.bytes(), c.rnd.bytes());
     let (pk, sk) = g("keygen_from_seed", || libr.keygen_from_seed(&c.key.bytes()))?;
-    let pk_rt = g_pk(libr, &g("pk.into_bytes", || pk.to_bytes())?)?;
-    let sk_rt = match g_sk(libr, &g("sk.into_bytes", || sk.to_bytes())?)? {
+    let pk_bytes = g("pk.into_bytes", || pk.to_bytes())?;
+    let sk_bytes = g("sk.into_bytes", || sk.to_bytes())?;
+    if let Some(t) = &c.twin {
+        for v in t.variants(&pk_bytes) {
+            let _ = g_pk(libr, &v)?;
+        }
+        st.class("history:twin_imported_first");
+    }
+    let pk_rt = g_pk(libr, &pk_bytes)?;
+    // the reverse order: the twin follows the key; its own verdicts are compared with the reference below
+    let twin_after: Option<(Vec<u8>, Box<dyn PkObj>)> = match &c.twin {
+        Some(t) => {
+            let v = t.variants(&pk_bytes).remove(0);
+            let k = g_pk(libr, &v)?;
+            Some((v, k))
+        }
+        None => None,
+    };
+    if let Some(t) = &c.twin {
+        for v in t.variants(&sk_bytes) {
+            let _ = g_sk(libr, &v)?;
+        }
+    }
+    let sk_rt = match g_sk(libr, &sk_bytes)? {
         Ok(k) => k,
         Err(e) => fail!("sk_roundtrip:err", "set {}: generated private key rejected: {e}", p.id),
     };
+    if g("sk.into_bytes", || sk_rt.to_bytes())? != sk_bytes || g("pk.into_bytes", || pk_rt.to_bytes())? != pk_bytes {
+        fail!(format!("roundtrip_bytes_differ:set{}", p.id), "set {}: a generated key serialises, deserialises and serialises to different bytes", p.id);
+    }
     st.nontrivial(c);
     let mut sigs_all = Vec::new();
     for mode in MODES {
@@ -162,6 +191,19 @@ pub fn check_behaviour(c: &BehaviourCase, st: &mut Stats) -> CheckResult {
             n_false += 1;
         }
     }
+    if let Some((tb, tk)) = &twin_after {
+        for (mode, s) in &sigs_all {
+            let v = g_verify(&**tk, &m, s, &ctx, *mode)?;
+            let rv = rf::verify(&p, tb, &m, s, &ctx, *mode).accepted();
+            st.eval();
+            if v != rv {
+                fail!(format!("twin_verdict_differs_from_reference:set{}", p.id), "set {}: a near-twin of the public key (deserialised right after the key itself, {:?}) says {v} where FIPS 204 Verify on the twin's bytes says {rv}", p.id, c.twin);
+            }
+        }
+        if g("pk.into_bytes", || tk.to_bytes())? != *tb {
+            fail!(format!("twin_roundtrip_differs:set{}", p.id), "set {}: near-twin public key serialises back to different bytes", p.id);
+        }
+    }
     st.class_n("verdict:true", n_true);
     st.class_n("verdict:false", n_false);
     Ok(())
@@ -187,11 +229,12 @@ pub fn run(ctx: &Ctx, rep: &mut Report) {
         "behaviour",
         ctx.n(2000, 40_000),
         || {
-            (0u8..3, gen::seed32(), gen::message(300), gen::context(), gen::seed32(), proptest::collection::vec(sigs::sig_mut(), 2..6))
-                .prop_map(|(set, key, msg, ctx, rnd, muts)| BehaviourCase { set, key, msg, ctx, rnd, muts })
+            (0u8..3, gen::seed32(), gen::message(300), gen::context(), gen::seed32(), proptest::collection::vec(sigs::sig_mut(), 2..6), proptest::option::weighted(0.6, twins::twin()))
+                .prop_map(|(set, key, msg, ctx, rnd, muts, twin)| BehaviourCase { set, key, msg, ctx, rnd, muts, twin })
         },
         check_behaviour,
     );
+    crate::props::history::run(ctx, rep, 2500, 60000);
 }
 
 pub fn replay(_ctx: &Ctx, sub: &str, case: &Value) -> Option<CheckResult> {
